@@ -56,6 +56,20 @@ func (c *checker) sizeSweep(r *vf.Run, nAcc int, span int) {
 	var first []accView
 	for k := 0; k <= span; k++ {
 		pad.SetValue(strings.Repeat("a", k))
+		if k%16 == 5 {
+			// another controller asks for the database and leaves before (or while) it is written: what that aborted
+			// answer leaves behind must not show in the next one
+			if ab, err := a.Verified(me, ent.PublicKey, ent.Name); err == nil {
+				ab.Send(refctl.BuildRequest("GET", "/accessories", "", nil))
+				if k%32 == 5 {
+					ab.Close()
+				} else {
+					ab.CloseGraceful()
+				}
+				r.Count("size_sweep_answers_abandoned_by_another_controller", 1)
+				time.Sleep(2 * time.Millisecond)
+			}
+		}
 		m, err := cn.Do("GET", "/accessories", "", nil)
 		if err != nil {
 			c.fail(rc, "served:size:no-answer", fmt.Sprintf("GET /accessories with an expected body of %d bytes (%d mod 2048, %d mod 1024) got no complete answer: %v", base+k, (base+k)%2048, (base+k)%1024, err),
